@@ -4,7 +4,7 @@ original reader).  Tie: generated DIMACS texts are written to files and read by 
 (harness/c10.cpp); the graph is compared field by field with the extracted model `read` (exact rational weights rounded
 correctly to binary64 here) and judged against the property text by an independent parser below; the validators run on
 generated multigraphs."""
-import json, os, re
+import json, shutil, os, re
 from fractions import Fraction
 import lib
 
@@ -432,6 +432,44 @@ def run_validator_cases(c, exe, impl_cases, model_cases):
             reported += 1
 
 
+def run_demo_cases(c):
+    """src/mcb-dimacs.cpp is anchored by this property ("every demo run depends on" the reader): the built program must reflect what the reader
+    reports — a file naming an undeclared vertex must NOT be answered with a weight of some truncated graph (non-zero exit, no 'MCB weight' line),
+    and a valid file must be answered with exit 0 and exactly one weight line."""
+    import subprocess, demo_build, tempfile
+    exe, err = demo_build.build_demo("mcb")
+    if exe is None:
+        c.violation("demo mcb-dimacs does not compile from the working tree", {"theorem_or_correspondence": "demo build mcb-dimacs", "log": (err or "")[-1500:]}, False)
+        return
+    wd = tempfile.mkdtemp(prefix="c10demo_", dir=lib.BUILD)
+    files = [("p edge 4 6\ne 1 2 1.5\ne 2 3 2\ne 3 1 2.5\ne 1 4 3\ne 2 4 4\ne 3 4 5\n", True),
+             ("p edge 3 3\ne 1 2\ne 2 3\ne 3 1", True),
+             ("p edge 3 3\ne 1 2 1\ne 2 3 1\ne 3 4 1\n", False),           # undeclared vertex on the last line
+             ("p edge 3 3\ne 1 2 1\ne 0 3 1\ne 3 1 1\n", False),           # vertex 0
+             ("p edge 3 3\ne 7 2 1\ne 2 3 1\ne 3 1 1\n", False),           # on the first edge line
+             ("p edge 4 5\ne 1 2 1\ne 2 3 1\ne 3 1 1\ne 3 4 1\ne 4 5 2\n", False),
+             ("e 1 2 1\np edge 2 1\n", False)]                              # edge before the problem line: no vertex declared yet
+    reported = 0
+    for i, (text, valid) in enumerate(files):
+        fn = os.path.join(wd, "f%d.gr" % i)
+        open(fn, "w").write(text)
+        for args in ([], ["--signed=false", "--fvstrees=true", "--parallel=false"]):
+            try:
+                p = subprocess.run([exe, fn] + args, capture_output=True, text=True, timeout=60)
+                rc, so = p.returncode, p.stdout
+            except subprocess.TimeoutExpired:
+                rc, so = 124, ""
+            nw = so.count("MCB weight")
+            c.count("DEMO %s %s" % (text.encode().hex(), " ".join(args)), True, bucket="demo/" + ("valid" if valid else "undeclared"))
+            bad = None
+            if valid and (rc != 0 or nw != 1): bad = "valid file: exit status %d, %d weight line(s)" % (rc, nw)
+            if not valid and (rc == 0 or nw != 0): bad = "file naming an undeclared vertex: exit status %d and %d 'MCB weight' line(s); the reader's error must end the run" % (rc, nw)
+            if bad and reported < 2:
+                reported += 1
+                c.violation("mcb-dimacs: " + bad, {"component": "c10demo", "text_hex": text.encode().hex(), "args": args, "exit": rc, "stdout": so[-400:]}, True)
+    shutil.rmtree(wd, ignore_errors=True)
+
+
 def sizes(tier):
     return (2000, 400, 1000, 300) if tier == "quick" else (20000, 4000, 10000, 3000)
 
@@ -485,6 +523,7 @@ def check(tier, seed):
         for _ in range(NG):
             a, b = gen_multigraph(c.rng); vi.append(a); vm.append(b)
         run_validator_cases(c, exe, vi, vm)
+        run_demo_cases(c)
     c.extra["layout_dimensions"] = dict(sorted(stats.items()))
     return c.finish(
         assumptions=["LP64 / glibc: int is 32 bits, unsigned long and std::size_t 64 bits; sscanf conversions follow ISO C on representable values; the \"C\" locale",
@@ -501,6 +540,21 @@ def check(tier, seed):
 
 def replay(path):
     r = json.load(open(path))
+    if r.get("component") == "c10demo":
+        import subprocess, demo_build, tempfile
+        exe, err = demo_build.build_demo("mcb")
+        if exe is None:
+            print("demo does not build:", err); print("VIOLATION property=%s replay=%s" % (PID, path)); return 1
+        with tempfile.NamedTemporaryFile("wb", suffix=".gr", delete=False) as f:
+            f.write(bytes.fromhex(r["text_hex"])); fn = f.name
+        p = subprocess.run([exe, fn] + r.get("args", []), capture_output=True, text=True, timeout=60)
+        os.remove(fn)
+        nw = p.stdout.count("MCB weight")
+        print("text:", bytes.fromhex(r["text_hex"])); print("exit:", p.returncode, "weight lines:", nw)
+        undeclared = "undeclared" in r.get("what", "")
+        if (undeclared and (p.returncode == 0 or nw)) or (not undeclared and (p.returncode != 0 or nw != 1)):
+            print("VIOLATION property=%s replay=%s" % (PID, path)); return 1
+        return 0
     lib.ensure_model(GROUP)
     exe, err = lib.build_cpp(name="c10", srcs=["c10.cpp"], libs=LIBS)
     if exe is None:
